@@ -115,6 +115,10 @@ func (fh *fshandler) Download(url string) (*types.FileDef, media.ReadSeekCloser,
 		logs.Warn.Println("Download: file not found", fid)
 		return nil, nil, err
 	}
+	if fd.Status != types.UploadCompleted {
+		// The upload is still in progress or has failed: there is nothing to serve yet.
+		return nil, nil, types.ErrNotFound
+	}
 
 	file, err := os.Open(fd.Location)
 	if err != nil {
